@@ -162,6 +162,17 @@ Definition erase_tu (r : row) : row * vec := (set_tu false r, d 15 (- B (tu r)))
 Definition seq2 (f g : row -> row * vec) (r : row) : row * vec :=
   let (r1, d1) := f r in let (r2, d2) := g r1 in (r2, d1 +v d2).
 
+(* RequestList buckets: requests made before the peer's last CHOKE sit in bucket_choked; they are kept in reqs with
+   choked_tag added.  queued_empty() of the code looks at bucket_queued only. *)
+Definition choked_tag : N := 4294967296%N.
+Definition req_is (b x : N) : bool := N.eqb x b || N.eqb x (b + choked_tag).
+Definition has_req (b : N) (l : list N) : bool := existsb (req_is b) l.
+Fixpoint del_req (b : N) (l : list N) : list N :=
+  match l with [] => [] | x :: t => if req_is b x then t else x :: del_req b t end.
+Definition queued_empty (l : list N) : bool := forallb (fun x => N.leb choked_tag x) l.
+Definition to_choked (l : list N) : list N := map (fun x => if N.ltb x choked_tag then (x + choked_tag)%N else x) l.
+Definition choke_reqs (r : row) : row * vec := (set_reqs (to_choked (reqs r)) r, vz).
+
 Definition idle_down (r : row) : bool :=
   match cur r, reqs r with CNone, [] => true | _, _ => false end.
 
@@ -185,7 +196,7 @@ Definition conn_msg_simple (m : pmsg) (r : row) : row * vec :=
   | MInt => up_set_queued r
   | MNotInt => up_set_not_queued r
   | MUnchoke => if dint r then down_set_queued r else (r, vz)
-  | MChoke => seq2 rel_dc (seq2 down_set_not_queued erase_td) r
+  | MChoke => seq2 rel_dc (seq2 choke_reqs (seq2 down_set_not_queued erase_td)) r
   | _ => (r, vz)
   end.
 
@@ -350,7 +361,7 @@ Definition hs_msg (seed : bool) (m : pmsg) (n len : N) (r : row) : row * vec :=
   end.
 
 Definition ph_valid_row (b : N) (valid : bool) (r : row) : row * vec :=
-  let r1 := set_reqs (remove N.eq_dec b (reqs r)) r in
+  let r1 := set_reqs (del_req b (reqs r)) r in
   if valid then
     (set_td true (set_dc true (set_cur (CValid b) r1)),
      d 17 (1 - B (dc r)) +v d 19 (1 - B (dc r)) +v d 16 (1 - B (td r)))
@@ -380,7 +391,7 @@ Definition piece_header (c : nat) (b : N) (s : st) : st :=
   match get_row c (rows s) with
   | None => reject s
   | Some r =>
-      if existsb (N.eqb b) (reqs r) then
+      if has_req b (reqs r) then
         let (bl, valid) := start_tr c b (blocks s) in
         let s1 := set_blocks bl s in
         with_row c (ph_valid_row b valid) s1
@@ -391,9 +402,9 @@ Definition piece_header (c : nat) (b : N) (s : st) : st :=
 (* PeerConnectionBase::down_chunk_finished after the transfer was handed back *)
 Definition after_piece (b : option N) (r : row) : row * vec :=
   let r0 := set_cur CNone r in
-  let keep_chunk := match b, reqs r0 with Some i, nxt :: _ => N.eqb i nxt | _, _ => false end in
+  let keep_chunk := match b, filter (fun x => N.ltb x choked_tag) (reqs r0) with Some i, nxt :: _ => N.eqb i nxt | _, _ => false end in
   let (r1, d1) := if keep_chunk then (r0, vz) else rel_dc r0 in
-  let (r2, d2) := if negb (du r1) && match reqs r1 with [] => true | _ => false end then erase_td r1 else (r1, vz) in
+  let (r2, d2) := if negb (du r1) && queued_empty (reqs r1) then erase_td r1 else (r1, vz) in
   (r2, d1 +v d2).
 
 Definition piece_end (c : nat) (s : st) : st :=
@@ -501,7 +512,7 @@ Definition step (s : st) (o : op) : st :=
       match m with
       | LRequest b =>
           if match get_row c (rows s), find_blk b (blocks s) with
-             | Some r, Some bk => existsb (N.eqb b) (reqs r) && has_st c TQ bk
+             | Some r, Some bk => has_req b (reqs r) && has_st c TQ bk
              | _, _ => false end then s else
           let (bl, ok) := add_tr c b (blocks s) in
           let s1 := with_row c (lib_msg_row m) (set_blocks bl s) in
